@@ -64,6 +64,16 @@ def one(case, idx):
                                 % (n, ffi2.sizeof("t" + n), i + 1))
         except Exception as e:
             failures.append("typedef t%s not found: %s: %s" % (n, type(e).__name__, e))
+        # the same names inside longer type strings (the identifier is followed by '[', ' ', '*', ')' ...)
+        for ts, want in (("t%s[2]" % n, 2 * (i + 1)), ("struct s%s[3]" % n, 3 * (i + 1)),
+                         ("t%s(*)[1]" % n, 8), ("enum e%s*" % n, 8), ("char[k%s]" % n, 1000 + i),
+                         ("void(*)(t%s*,struct s%s)" % (n, n), 8)):
+            lookups += 1
+            try:
+                if ffi2.sizeof(ts) != want:
+                    failures.append("sizeof(%r) = %d, expected %d" % (ts, ffi2.sizeof(ts), want))
+            except Exception as e:
+                failures.append("type string %r: a declared name was not found: %s: %s" % (ts, type(e).__name__, e))
         try:
             if ffi2.sizeof("struct s" + n) != i + 1:
                 failures.append("struct s%s resolves to another entry" % n)
